@@ -178,7 +178,7 @@ def _urls(draw, tier):
         s = dict(s, host=s["host"].rsplit(".", 1)[0] + "." + draw(st.sampled_from(["co.uk", "com.au", "x.kawasaki.jp", "blogspot.com", "unknowntld"])))
     url = _fix_edges(G.serialise(s))
     wrap = draw(st.sampled_from([None, None, None, "http://r.example.com/?url=%s", "https://l.facebook.com/l.php?u=%s", "http://x.cdn.ampproject.org/c/s/%s",
-                                 "https://app.example.com/#/login?redirect=%s", "site.example.org/page#tab=2&u=%s", "archive.example.org/web/2020/RAW%s"]))
+                                 "https://app.example.com/#/login?redirect=%s", "https://www.google.com/URL?sa=D&q=%s", "http://r.example.com/?URL=%s", "site.example.org/page#tab=2&u=%s", "archive.example.org/web/2020/RAW%s"]))
     if wrap:
         if "RAW" in wrap:   # scheme-less carrier with a raw '://' further on
             url = wrap.replace("RAW%s", url if "://" in url else "http://" + url.lstrip("/"))
@@ -242,6 +242,11 @@ LABELS_BASE = ["mobile.de", "m.fr", "amp.dev", "www.ck", "facebook.com", "exampl
                "site.unknowntld", "münchen.de", "straße.de", "fußball.example.co.uk", "ΟΔΌΣ.gr", "ελληνικός.gr", "İstanbul.com"]
 
 
+CASE_CARRIERS = ["https://www.google.com/URL?q=https://www.Lemonde.fr/x", "https://www.google.com/Url?sa=D&q=http://M.example.co.uk/", "https://www.google.com/url?Q=https://fr.target.org/",
+                 "https://www.YouTube.com/REDIRECT?q=www.lemonde.fr%2Fx", "HTTP://R.example.com/?URL=HTTP%3A%2F%2FWWW.Target.org%2FP", "http://r.example.com/out?Next=Https://amp.site.com/a",
+                 "http://x.cdn.AMPPROJECT.org/C/S/www.site.com/a", "HTTPS://BC.MARFEEL.COM/www.site.co.uk/x", "http://a.com/login?NEXT=/Rel/Path", "https://l.facebook.com/L.PHP?U=https%3A%2F%2Fwww.target.org%2Fp"]
+
+
 def _bare_enum(acc, shard, nshards, seed, tier):
     idx = 0
     for pre, base, amp, ss, pad in itertools.product(LABELS_PRE, LABELS_BASE, (True, False), (False, True), ("", " ", "\x00")):
@@ -255,6 +260,13 @@ def _bare_enum(acc, shard, nshards, seed, tier):
             for sch in ("http://", "", "//", "HTTPS://"):
                 c2 = {"kind": "host_helpers", "url": sch + pre + base + "/p?x=1", "normalize_amp": amp, "infer_redirection": True, "strip_suffix": ss}
                 acc.check(c2, _nt, ())
+    # redirections that are only recognised in one letter case (route words, keys, target schemes, cache hosts): the helpers and the URL-level
+    # functions must lower-case and resolve in the same order
+    for u, amp, ss in itertools.product(CASE_CARRIERS, (True, False), (False, True)):
+        idx += 1
+        if idx % nshards != shard:
+            continue
+        acc.check({"kind": "host_helpers", "url": u, "normalize_amp": amp, "infer_redirection": True, "strip_suffix": ss}, True, ["case-dependent-redirection"])
 
 
 GH = ["http://example.com/p", "example.com", "//example.com", "https://User:Pw@Example.COM:8080/x", "example.com:80", " http://example.com ", "http://[::1]:8080/",
